@@ -63,6 +63,21 @@ def _patch_recorders():
         rec._balm_orig = orig
         return rec
 
+    import biobalm._sd_algorithms.expand_attractor_seeds as eas
+
+    def wrapfound(orig):
+        def rec(*a, **k):
+            r = orig(*a, **k)
+            _found.append(len(r) > 0)
+            return r
+
+        rec._balm_orig = orig
+        return rec
+
+    if not hasattr(eas.compute_fixed_point_reduced_STG, "_balm_orig") or not getattr(eas.compute_fixed_point_reduced_STG, "_found", False):
+        w = wrapfound(eas.compute_fixed_point_reduced_STG)
+        w._found = True
+        eas.compute_fixed_point_reduced_STG = w
     for meth in ("node_attractor_candidates", "node_attractor_seeds"):
         if not hasattr(getattr(sdm.SuccessionDiagram, meth), "_balm_orig"):
             setattr(sdm.SuccessionDiagram, meth, wrapclean(getattr(sdm.SuccessionDiagram, meth)))
@@ -78,8 +93,14 @@ def _patch_recorders():
 _calls = [0]
 _fail_at = [None]
 _block_main = [None]
+_found = []
 _clean_depth = [0]
 _clean = []
+
+
+def aseeds_cmd(ni, root, sz):
+    mins = [ni.sp(root | x) for x in _min_record[0]] if _min_record else []
+    return f"ASEEDS {fmt(sz)} " + " ".join(mins) + " ; " + " ".join("1" if b else "0" for b in _found)
 
 
 def blockx_cmd(maa, opt, sz):
@@ -260,8 +281,10 @@ def apply_op(sd, ni, op):
             mins = [ni.sp(root | x) for x in _min_record[0]] if _min_record else []
             return str(int(r)), "SKIPREM " + " ".join(mins)
         if kind == "aseeds":
+            del _found[:]
+            root = dict(sd.node_data(0)["space"])
             r = sd.expand_attractor_seeds(size_limit=op[1])
-            return str(bool(r)).lower(), None
+            return str(bool(r)).lower(), aseeds_cmd(ni, root, op[1])
         if kind == "block":
             _block_main[0] = sd
             del _clean[:]
@@ -385,6 +408,8 @@ def _cmd_for_error(sd, ni, op, n):
     kind = op[0]
     if kind in ("one", "succ"):
         return f"EXPAND {op[1] % n}"
+    if kind == "aseeds":
+        return aseeds_cmd(ni, dict(sd.node_data(0)["space"]), op[1])
     if kind == "block" and not op[1]:
         return f"BLOCK {fmt(op[2])}"
     if kind == "block":
